@@ -374,6 +374,9 @@ def inline_region(fx, root_key, depth=4, policy=None, desugar=True):
                     continue
                 break
             n = callee_name(node)
+            if n in ("std::iter::Iterator::cloned", "std::iter::Iterator::copied") and len(node["args"]) == 1 and stages is not None:
+                op = node["args"][0]        # element-wise copies: the element's provenance is unchanged
+                continue
             if n in ("std::iter::Iterator::map", "std::iter::Iterator::filter") and len(node["args"]) == 2:
                 co = _closure_of(fn, node["args"][1])
                 if co is None or co[0]["key"] in stack or co[0]["arg_count"] != (2 if co[1] is not None else 1):
@@ -388,17 +391,55 @@ def inline_region(fx, root_key, depth=4, policy=None, desugar=True):
     def _desugar(fn, bi, nb, t, loff, boff, stack, d, inst):
         name = callee_name(t)
         kind = _DESUGAR[name]
-        if len(t["args"]) != 2:
+        if len(t["args"]) != (1 if kind == "collect" else 2):
             return False
-        co = _closure_of(fn, fn["blocks"][bi]["term"]["args"][1])
-        if co is None:
-            return False
-        callee, env = co
-        if callee["key"] in stack:
-            return False
-        want_args = 2 if env is not None else 1
-        if callee["arg_count"] != want_args:
-            return False
+        ext_stages = None
+        coll_res = False
+        _COLLS = (("BTreeSet<", "std::collections::BTreeSet"), ("HashSet<", "std::collections::HashSet"), ("Vec<", "std::vec::Vec"),
+                  ("BTreeMap<", "std::collections::BTreeMap"), ("HashMap<", "std::collections::HashMap"))
+        if kind == "collect":
+            # iter.map(f).filter(p).collect::<C>() / ::<Result<C, E>>(): a loop filling a fresh collection
+            gens = [g for g in t.get("generics", []) if not g.startswith("'")]
+            tgt = gens[-1] if gens else ""
+            coll_res = tgt.startswith("std::result::Result<")
+            inner = tgt[len("std::result::Result<"):] if coll_res else tgt
+            cty = None
+            for (pat, base) in _COLLS:
+                if inner.startswith(base + "<"):
+                    cty = base
+            if cty is None:
+                return False
+            ins = cty + ("::push" if cty.endswith("Vec") else "::insert")
+            ext_stages = _stages(fn, fn["blocks"][bi]["term"]["args"][0], stack)
+            if not any(sk in ("map", "filter") for (sk, _c, _e, _n) in ext_stages[0]):
+                return False
+            callee, env = None, None
+        elif kind == "extend":
+            # coll.extend(iter.filter(p).map(f)..): a loop inserting every element that passes the adaptors
+            recv_ty = (t.get("arg_tys") or [""])[0]
+            ins = None
+            for (pat, nm) in (("BTreeSet<", "std::collections::BTreeSet::insert"), ("HashSet<", "std::collections::HashSet::insert"),
+                              ("Vec<", "std::vec::Vec::push"), ("BTreeMap<", "std::collections::BTreeMap::insert"),
+                              ("HashMap<", "std::collections::HashMap::insert")):
+                if ("::" + pat) in recv_ty or recv_ty.lstrip("&mut ").startswith(pat):
+                    ins = nm
+                    break
+            if ins is None:
+                return False
+            ext_stages = _stages(fn, fn["blocks"][bi]["term"]["args"][1], stack)
+            if not any(sk in ("map", "filter") for (sk, _c, _e, _n) in ext_stages[0]):
+                return False
+            callee, env = None, None
+        else:
+            co = _closure_of(fn, fn["blocks"][bi]["term"]["args"][1])
+            if co is None:
+                return False
+            callee, env = co
+            if callee["key"] in stack:
+                return False
+            want_args = 2 if env is not None else 1
+            if callee["arg_count"] != want_args:
+                return False
         at = t["at"]
         origin = {"origin": fn["path"], "origin_key": fn["key"], "origin_bb": bi, "inst": inst, "ret_local": loff, "cleanup": False,
                   "synthetic": "desugar"}
@@ -441,9 +482,10 @@ def inline_region(fx, root_key, depth=4, policy=None, desugar=True):
         dst, target = t["dst"], t["target"]
         # callee locals
         cl_off = len(new["locals"])
-        for l in callee["locals"]:
-            new["locals"].append(dict(l))
-        cinst = inst + "/" + callee["path"].split("::")[-1] + "@" + str(boff + bi)
+        if callee is not None:
+            for l in callee["locals"]:
+                new["locals"].append(dict(l))
+            cinst = inst + "/" + callee["path"].split("::")[-1] + "@" + str(boff + bi)
         p_item = cl_off + (2 if env is not None else 1)
 
         def bind_env(bidx):
@@ -469,8 +511,9 @@ def inline_region(fx, root_key, depth=4, policy=None, desugar=True):
             blk["term"] = {"k": "switch", "discr": mv(l), "discr_ty": ty, "arms": arms, "otherwise": otherwise, "at": at, "exp": None,
                            "synthetic": "desugar"}
 
-        if kind in ("for_each", "any", "all", "find", "try_for_each"):
-            stages, src_op = _stages(fn, fn["blocks"][bi]["term"]["args"][0], stack | {callee["key"]})
+        if kind in ("for_each", "any", "all", "find", "try_for_each", "extend", "collect"):
+            own = {callee["key"]} if callee is not None else set()
+            stages, src_op = ext_stages if ext_stages is not None else _stages(fn, fn["blocks"][bi]["term"]["args"][0], stack | own)
             if stages:
                 src_op = _shift(src_op, loff, boff)
                 arg_ty = "_"
@@ -478,6 +521,11 @@ def inline_region(fx, root_key, depth=4, policy=None, desugar=True):
                     tt0 = blk0["term"]
                     if tt0 and tt0["k"] == "call" and tt0 is stages[0][3]:
                         arg_ty = (tt0.get("arg_tys") or ["_"])[0]
+            elif kind == "extend":
+                src_op = _shift(src_op, loff, boff)
+                arg_ty = (t.get("arg_tys") or ["_", "_"])[1]
+            elif kind == "collect":
+                src_op = _shift(src_op, loff, boff)
             else:
                 src_op = t["args"][0]
             it = local(arg_ty)
@@ -486,7 +534,16 @@ def inline_region(fx, root_key, depth=4, policy=None, desugar=True):
             tmp = local(OPT + "<_>")
             dl = local("isize")
             H, S, Bd, A, X = block(), block(), block(), block(), block()
-            nb["term"] = {"k": "goto", "target": H, "at": at, "exp": None, "synthetic": "desugared-call", "callee": t.get("callee")}
+            if kind == "collect":
+                coll = local(inner if not coll_res else inner.rsplit(",", 1)[0])
+                nt0 = {k2: v for k2, v in t.items()}
+                nt0.update({"callee": cty + "::new", "callee_full": cty + "::new", "callee_crate": "alloc", "generics": [], "trait": None,
+                            "resolved": None, "resolved_full": None, "resolved_key": None, "callee_key": None, "resolved_kind": None, "args": [],
+                            "arg_tys": [], "dst": {"l": coll, "p": []}, "target": H, "unwind": None, "synthetic": "desugared-call",
+                            "desugared_from": name})
+                nb["term"] = nt0
+            else:
+                nb["term"] = {"k": "goto", "target": H, "at": at, "exp": None, "synthetic": "desugared-call", "callee": t.get("callee")}
             assign(H, r, {"k": "ref", "mut": True, "place": {"l": it, "p": []}})
             nt = {k2: v for k2, v in t.items()}
             nt.update({"callee": "std::iter::Iterator::next", "callee_full": "<%s as std::iter::Iterator>::next" % arg_ty, "callee_crate": "core",
@@ -498,6 +555,7 @@ def inline_region(fx, root_key, depth=4, policy=None, desugar=True):
             switch(S, dl, "isize", [[1, Bd]], X)
             # lazy adaptors run first, element by element
             cur_blk = Bd
+            cur_ty = "_"
             cur_elem = {"move": variant_field(tmp, "Some", 1, OPT)}
             for si, (skind, scallee, senv, snode) in enumerate(stages):
                 s_off = len(new["locals"])
@@ -513,20 +571,75 @@ def inline_region(fx, root_key, depth=4, policy=None, desugar=True):
                 nxt = block()
                 if skind == "map":
                     assign(cur_blk, s_item, use(cur_elem), "arg")
-                    scb = emit(scallee, s_off, stack | {callee["key"], scallee["key"]}, d - 1, ret_dst={"l": sret, "p": []}, ret_target=nxt, inst=sinst)
+                    scb = emit(scallee, s_off, stack | own | {scallee["key"]}, d - 1, ret_dst={"l": sret, "p": []}, ret_target=nxt, inst=sinst)
                     goto(cur_blk, scb)
                     cur_elem = mv(sret)
+                    cur_ty = scallee["locals"][0]["ty"]
                 else:   # filter: the predicate sees a reference; a rejected element goes back to the header
                     held = local("_")
                     assign(cur_blk, held, use(cur_elem))
                     assign(cur_blk, s_item, {"k": "ref", "mut": False, "place": {"l": held, "p": []}}, "arg")
                     tst = block()
-                    scb = emit(scallee, s_off, stack | {callee["key"], scallee["key"]}, d - 1, ret_dst={"l": sret, "p": []}, ret_target=tst, inst=sinst)
+                    scb = emit(scallee, s_off, stack | own | {scallee["key"]}, d - 1, ret_dst={"l": sret, "p": []}, ret_target=tst, inst=sinst)
                     goto(cur_blk, scb)
                     switch(tst, sret, "bool", [[0, H]], nxt)
                     cur_elem = mv(held)
                 new["inlined"].append({"callee": scallee["path"], "at_block": boff + bi, "inst": sinst, "site": at, "desugared": "adaptor " + skind})
                 cur_blk = nxt
+            if kind == "collect":
+                el = local(cur_ty)
+                assign(cur_blk, el, use(cur_elem))
+                if coll_res:
+                    # an Err element ends the collection with that Err
+                    d3 = local("isize")
+                    okb, T = block(), block()
+                    assign(cur_blk, d3, {"k": "discr", "place": {"l": el, "p": []}, "pty": RES + "<_, _>", "adt": RES, "variants": RES_V})
+                    switch(cur_blk, d3, "isize", [[0, okb]], T)
+                    assign(T, dst, adt(RES, "Err", [{"move": variant_field(el, "Err", 1, RES)}]))
+                    goto(T, target)
+                    item = local("_")
+                    assign(okb, item, use({"move": variant_field(el, "Ok", 0, RES)}))
+                    cur_blk = okb
+                else:
+                    item = el
+                cref = local("&mut _")
+                assign(cur_blk, cref, {"k": "ref", "mut": True, "place": {"l": coll, "p": []}})
+                scratch = local("_")
+                args = [mv(cref)]
+                if ins.endswith("Map::insert"):
+                    args += [mv(item, [{"f": "0", "i": 0, "of": "tuple", "ty": "_"}]), mv(item, [{"f": "1", "i": 1, "of": "tuple", "ty": "_"}])]
+                else:
+                    args.append(mv(item))
+                it_ = {k2: v for k2, v in t.items()}
+                it_.update({"callee": ins, "callee_full": ins, "callee_crate": "alloc", "generics": [], "trait": None, "resolved": None,
+                            "resolved_full": None, "resolved_key": None, "callee_key": None, "resolved_kind": None, "args": args,
+                            "arg_tys": ["&mut " + (inner if not coll_res else inner.rsplit(",", 1)[0])] + ["_"] * (len(args) - 1),
+                            "dst": {"l": scratch, "p": []}, "target": H, "unwind": None, "synthetic": "desugar", "desugared_from": name})
+                new["blocks"][cur_blk]["term"] = it_
+                if coll_res:
+                    assign(X, dst, adt(RES, "Ok", [mv(coll)]))
+                else:
+                    assign(X, dst, use(mv(coll)))
+                goto(X, target)
+                return True
+            if kind == "extend":
+                el = local("_")
+                assign(cur_blk, el, use(cur_elem))
+                scratch = local("_")
+                args = [{"copy": (t["args"][0].get("move") or t["args"][0].get("copy"))}]
+                if ins.endswith("Map::insert"):
+                    args += [mv(el, [{"f": "0", "i": 0, "of": "tuple", "ty": "_"}]), mv(el, [{"f": "1", "i": 1, "of": "tuple", "ty": "_"}])]
+                else:
+                    args.append(mv(el))
+                it_ = {k2: v for k2, v in t.items()}
+                it_.update({"callee": ins, "callee_full": ins, "callee_crate": "alloc", "generics": [], "trait": None, "resolved": None,
+                            "resolved_full": None, "resolved_key": None, "callee_key": None, "resolved_kind": None, "args": args,
+                            "arg_tys": [(t.get("arg_tys") or ["_"])[0]] + ["_"] * (len(args) - 1), "dst": {"l": scratch, "p": []},
+                            "target": H, "unwind": None, "synthetic": "desugar", "desugared_from": name})
+                new["blocks"][cur_blk]["term"] = it_
+                assign(X, dst, unit)
+                goto(X, target)
+                return True
             bind_env(cur_blk)
             rty = callee["locals"][0]["ty"]
             if kind == "find":
@@ -607,6 +720,8 @@ def inline_region(fx, root_key, depth=4, policy=None, desugar=True):
 
 
 _DESUGAR = {
+    "std::iter::Extend::extend": "extend",
+    "std::iter::Iterator::collect": "collect",
     "std::iter::Iterator::for_each": "for_each", "std::iter::Iterator::any": "any", "std::iter::Iterator::all": "all",
     "std::iter::Iterator::find": "find", "std::iter::Iterator::try_for_each": "try_for_each",
     "std::option::Option::map": "map", "std::option::Option::and_then": "and_then",
